@@ -69,6 +69,9 @@ def handwritten_ssbscript() -> list[str]:
                        f"def 1 for actor X {{{lab('start1')} c(); Return();{lab('end1')} }}\n")
                 out.append(src)
                 out.append(src + "def 2 { alias previous; }\n")
+    # routine ids that skip numbers or do not start at 0
+    out += ["def 0 { a(); Return(); }\ndef 2 { b(); @l; Jump(@l); }\n", "def 3 { a(); Return(); }\n",
+            "def 0 { a(); }\ndef 1 for actor X { b(); }\ndef 5 for object 2 { c(); Return(); }\n", "def 1 { @s; a(); Branch($V, 1, @s); Return(); }\n"]
     return out
 
 
